@@ -30,6 +30,10 @@ type LeaseService struct {
 	primaryInfoErr map[string]error
 	clusterIDErr   map[string]error
 	stall          map[string]chan struct{} // calls by the node block until the channel is closed
+
+	// OnClose, if set, is called (without the service's mutex) when a node gives its
+	// lease back, before the service forgets it.
+	OnClose func(node, leaseID string)
 }
 
 // LeaseCall is one recorded call to the service.
@@ -290,6 +294,9 @@ func (l *Lease) HandoffCh() <-chan uint64 { return l.handoffCh }
 
 func (l *Lease) Close() error {
 	s := l.svc
+	if fn := s.OnClose; fn != nil {
+		fn(l.owner.Name, l.id)
+	}
 	s.mu.Lock()
 	defer s.mu.Unlock()
 	l.closed = true
